@@ -4,10 +4,15 @@ package internal
 
 // Contracts for the deductive verifier in /verif (govc). Comment-only file: adds no code.
 
+// Representation invariant of the record: every prefix present has a (non-nil) map of its entries. Both writers
+// assume and re-establish it; it is what makes the in-place update of an existing prefix safe.
+//@ macro valuesOK(c) = c.values != nil && forallk(s0, string, has(c.values, s0) ==> c.values[s0] != nil)
+
 // handleChanges (reload): afterwards the cluster's record for the prefix IS the snapshot that was loaded.
 //@ func (*cluster).handleChanges
 //@   prop C15
-//@   requires c != nil && c.values != nil
+//@   requires c != nil && valuesOK(c)
+//@   ensures [record-stays-well-formed] valuesOK(c)
 //@   let existed = old(has(c.values, key))
 //@   observe Existed = existed
 //@   observe NKvs = len(kvs)
@@ -38,7 +43,9 @@ package internal
 //@ func (*cluster).handleWatchEvents
 //@   prop C15
 //@   opaque Errorf
-//@   requires c != nil && c.values != nil
+//@   requires c != nil && valuesOK(c)
+//@   loop 1 invariant valuesOK(c)
+//@   ensures [record-stays-well-formed] valuesOK(c)
 //@   let ev = at_head(events[rangeindex + 1])
 //@   let k = bytes2str(ev.Kv.Key)
 //@   loop 1 iteration-ensures [put-stored] ev.Type == 0 ==> has(c.values, key) && has(c.values[key], k) && c.values[key][k] == bytes2str(ev.Kv.Value)
